@@ -522,6 +522,11 @@ func checkClientConn(key string, svc ServiceSpec, scripts map[int]Script, cs Cli
 	{
 		// --- reply stream
 		obs, rest, err := parseReplies(conn.Server.Tap)
+		if err != nil && serverMayHangUp {
+			// a reply cut short by the cancellation of the connection's context may be
+			// followed by further attempts: the stream is not made of whole frames
+			return out
+		}
 		if err != nil {
 			out = append(out, vio("framing", "reply-not-an-object", "%s: %v", key, err))
 			return out
